@@ -125,6 +125,16 @@ def check(ctx: Ctx) -> list[RuleResult]:
     r2 = RuleResult("R2", "the decode path is pure", "no clock/RNG/env, no global state, no writes outside the frame's memo fields", min_instances=150)
     reach = [f for f in ctx.cg.reachable([pkt_init, msg_init]) if f.module.name.startswith("ramses_tx")]
     logger_funcs = {f for f in reach if f.module.name == "ramses_tx.logger"}
+    # a private method that only a constructor calls (a phase of __init__ split off) is constructor code: it initialises the object
+    ctor_parts: set = set()
+    for f in reach:
+        if f.name == "__init__" and f.cls is not None:
+            for cs in ctx.cg.calls_in(f):
+                for g in cs.callees:
+                    if g.cls is not None and g.name.startswith("_") and not g.name.startswith("__") and isinstance(cs.node, ast.Call) and isinstance(cs.node.func, ast.Attribute) and norm(cs.node.func.value) == "self":
+                        callers = {c2.caller for c2 in ctx.cg.callers_of(g)}
+                        if callers and all(c.name == "__init__" for c in callers):
+                            ctor_parts.add(g)
     for f in reach:
         if f in logger_funcs:
             continue
@@ -141,7 +151,7 @@ def check(ctx: Ctx) -> list[RuleResult]:
             elif isinstance(n, ast.Attribute) and isinstance(n.ctx, ast.Store):
                 base = norm(n.value)
                 own = base == "self" or (f.name in ("__init__",) and base == "self")
-                if base == "self" and (f.name in ("__init__", "_force_has_array") or n.attr in MEMO_FIELDS):
+                if base == "self" and (f.name in ("__init__", "_force_has_array") or f in ctor_parts or n.attr in MEMO_FIELDS):
                     continue
                 if base == "result" or base.startswith("result"):
                     continue
